@@ -23,7 +23,7 @@ LEVEL_RULE = (
 EXHAUSTIVE_SUBDOMAINS = []
 ASSUMPTIONS = ["pulse samples carry the amplitude plus a small share of the noise; low samples carry noise only", "regime R2 (noise between 0.2 x and 0.316 x the weakest pulse, i.e. 10-13.5 dB SNR) was the recorded finding eof-threshold-below-noise until fix b07124f; it is now judged as strictly as R1",
                "R1 = noise peak below the demodulator's own end-of-frame threshold (0.2 x strongest pulse of the frame)"]
-REQUIRED = ["r1_buffers", "r2_buffers", "min_gap_after_short", "min_gap_after_long", "df17", "df20", "df21", "df4", "df5", "df11", "offset_even", "offset_odd",
+REQUIRED = ["r1_buffers", "r2_buffers", "second_buffer", "min_gap_after_short", "min_gap_after_long", "df17", "df20", "df21", "df4", "df5", "df11", "offset_even", "offset_odd",
             "corrupted_df17_rejected", "pure_noise", "multi_frame"]
 
 
@@ -88,6 +88,22 @@ def m_buffer(ctx, case):
     r.signal_buffer = list(buf)
     res = call(r._process_buffer)
     ctx.ev()
+    if case.get("second") and res[0] == "ok" and isinstance(res[1], list):
+        # the reader keeps state between buffers (left-over samples, running noise floor): a second buffer of the same
+        # noise family is appended the way _read_callback does and must be decoded just as well
+        rng2 = _r.Random(case["bseed"] + 1)
+        buf2, exp2, info2 = build(rng2, dict(case, frames=case["second"]))
+        off = len(buf) - len(r.signal_buffer)
+        r.signal_buffer.extend(buf2)
+        res2 = call(r._process_buffer)
+        ctx.ev()
+        ctx.hit("second_buffer")
+        if res2[0] != "ok" or not isinstance(res2[1], list):
+            res = res2
+        else:
+            res = ("ok", list(res[1]) + list(res2[1]))
+            exp = exp + exp2
+            info = info + [dict(f, start=f["start"] + len(buf)) for f in info2]
     regime = case["regime"]
     ctx.hit("r1_buffers" if regime == "R1" else "r2_buffers" if regime == "R2" else "pure_noise")
     short = {"fam": case["fam"], "L": case["L"], "P": case["P"], "bseed": case["bseed"], "regime": regime,
@@ -186,8 +202,15 @@ def mkcase(rng, regime, nframes=None, force_df=None):
         own = 2 * n   # samples of this frame: "separated by at least one frame length of noise" = at least its own length
         frames.append({"hex": hx, "amp": amps[k], "gap": rng.choice((own, own + 1, own + 2, 240, 300, 500, rng.randint(own, 900))) + rng.randrange(2),
                        "valid": valid})
-    return {"fam": fam, "L": L, "P": P, "lead": rng.choice((200, 201, 333, 400, rng.randint(200, 700))), "tail": 600 + rng.randrange(0, 300),
-            "frames": frames, "regime": regime, "bseed": rng.getrandbits(40)}
+    c = {"fam": fam, "L": L, "P": P, "lead": rng.choice((200, 201, 333, 400, rng.randint(200, 700))), "tail": 600 + rng.randrange(0, 300),
+         "frames": frames, "regime": regime, "bseed": rng.getrandbits(40)}
+    if frames and rng.random() < 0.25:
+        k = rng.randint(1, len(frames))
+        c["second"] = [dict(f) for f in frames[:k]]
+        for f in c["second"]:
+            hx, _n = rand_frame(rng, int(f["hex"][:2], 16) >> 3)
+            f["hex"], f["valid"] = hx, True
+    return c
 
 
 def cases(ctx):
